@@ -9,7 +9,16 @@ BASE = ("cd /repo && env -u TRACKLIB_VERIF_TRACE /venv/bin/python -m pytest -ra 
         "--timeout=900 --continue-on-collection-errors")
 
 # pid -> (module(s), technique, level text, level note, design ref)
-CHECKS = {}
+CHECKS = {
+    "C03": ("Calendar", "TLA+ clock model (day chain 1970-2099 x time-of-day lattice) checked exhaustively by TLC; every "
+            "state/transition replayed on ObsTime (spec->code conformance)",
+            "TLC enumerates every calendar day of 1970-2099 and checks the calendar invariants on the model; every "
+            "enumerated state and every one-unit transition is replayed on the real ObsTime (toAbsTime, readUnixTime, "
+            "add*, six comparison operators) and compared with the specification's values. Exhaustive over days, "
+            "lattice over intra-day instants.",
+            "TLC 1.8; abstraction ObsTime fields -> (dayNo, ms of day); three epoch anchor constants ASSUMEd in the spec; "
+            "float seconds compared with 2 microsecond tolerance", "5/C03"),
+}
 
 ALL = ["C%02d" % i for i in range(1, 21)]
 
